@@ -374,6 +374,13 @@ func cmdCheck(args []string) int {
 			fmt.Printf("  slow %.2fs %s %s\n", sl[i].secs, sl[i].st, sl[i].name)
 		}
 	}
+	if *verbose {
+		for n := range x.notes {
+			if strings.Contains(n, "UNSPECIFIED") || strings.Contains(n, "no invariant") {
+				fmt.Println("  note:", n)
+			}
+		}
+	}
 	if *verbose || exit != 0 {
 		for _, r := range reports {
 			fmt.Printf("  func %-60s paths=%d checks=%d %s\n", r.Name, r.Paths, r.Checks, r.Err)
